@@ -20,7 +20,7 @@ func checkC17(c *Ctx) (int, error) {
 	var scheds [][]int
 	for _, nk := range [][2]int{{2, 4}, {3, 3}} {
 		name := fmt.Sprintf("GEN_C17_%dx%d.cfg", nk[0], nk[1])
-		cfg := fmt.Sprintf("SPECIFICATION Spec\nCONSTANTS\n  N = %d\n  K = %d\nINVARIANTS C17_NoSharedWrite C17_SameAsSolo PrintSchedule\nCHECK_DEADLOCK FALSE\n", nk[0], nk[1])
+		cfg := fmt.Sprintf("SPECIFICATION Spec\nCONSTANTS\n  N = %d\n  K = %d\n  DevSharedPool = FALSE\nINVARIANTS C17_NoSharedWrite C17_SameAsSolo C17_NothingShared PrintSchedule\nCHECK_DEADLOCK FALSE\n", nk[0], nk[1])
 		res, err := c.TLC(tlc.Run{Module: "Instances", Cfg: name, Workers: 1, Timeout: 5 * time.Minute, Inline: map[string]string{name: cfg}})
 		if err != nil {
 			return 0, err
